@@ -23,7 +23,7 @@ targets without leading slash, junk and extreme numeric fields, non-UTF-8 and co
 x application in {App, handler returning Err, handler returning a fixed response}, in-process on Server::process over a fixed small docroot. \
 Oracle: no panic/abort (worker supervisor attributes an abort to the in-flight case); exactly one response accepted by M-HTTP with Content-Length == body length (empty body for HEAD/OPTIONS); \
 status >= 400 when the harness's pre-parser says the request line must be rejected or the handler returned Err. \
-A quarter of the production-entry cases with the default buffer and the real application are sent to the release binary over loopback instead of Server::process on the mock transport (same oracle; a server-side panic shows as a connection closed without response bytes). Non-trivial = carries a mutation or hostile field and is not rejected by the first-line check alone; distinct by generated case. Saved corpus files (corpus/c04) are replayed first.",
+A quarter of the production-entry cases with the default buffer and the real application are sent to the release binary over loopback instead of Server::process on the mock transport (same oracle; a server-side panic shows as a connection closed without response bytes). Non-trivial = carries a mutation or hostile field and is not rejected by the first-line check alone; distinct by generated case. Saved corpus files (corpus/c04) are replayed first. Section far-beyond-the-buffer: requests 10 KB to 650 KB longer than the buffer for files of 10 bytes to 3 MiB, all through the real binary (the tail is written while the response is read).",
         &["the harness's lenient request-line pre-parser decides only the classes the statement names; lower case, extra blanks, tabs assert totality only",
           "in-process route: process survival is observed as absence of panic/abort of the worker process; the real-binary tier is part of C06"],
         if tier == Tier::Quick { 900 } else { 14400 },
@@ -117,8 +117,25 @@ pub fn run(ctx: &Ctx) {
     // one silent connection beside the request (the binary runs two workers): the bytes of the second connection have arrived, it must be answered
     // although the first client has not said anything yet
     ctx.prop("beside-an-idle-connection", ctx.share(ctx.scale(160, 6000)), server_case_strategy(false), |c| eval_beside(ctx, c));
+    // requests tens to hundreds of KB longer than the buffer, for files of 10 bytes to 3 MiB, all through the real binary: what the server does with the
+    // part of the input it never parses (discarding it, closing with it unread) decides whether the one response arrives complete
+    ctx.prop("far-beyond-the-buffer", ctx.share(ctx.scale(320, 12_000)), far_case_strategy(), |c| eval(ctx, c));
     super::common::binary_end(ctx);
     std::env::set_current_dir("/").ok();
+}
+
+fn far_case_strategy() -> impl proptest::strategy::Strategy<Value = ServerCase> {
+    use crate::fw::greq::{Base, Mut, ReqCase};
+    use crate::fw::util::Bytes;
+    use proptest::prelude::*;
+    (prop::sample::select(vec!["/huge.bin", "/huge.bin", "/big.bin", "/a.txt", "/", "/missing", "/sub/x.json"]), prop::sample::select(vec!["GET", "GET", "POST", "HEAD"]), 49152u16..=65535,
+     prop::sample::select(vec!["", "Content-Type: application/octet-stream", "Range: bytes=0-2999999", "Transfer-Encoding: chunked"]), any::<bool>())
+        .prop_map(|(target, method, delta, header, with_length)| {
+            let mut headers = vec![("Host".to_string(), Bytes(b"localhost".to_vec()))];
+            if let Some((n, v)) = header.split_once(": ") { headers.push((n.to_string(), Bytes(v.as_bytes().to_vec()))); }
+            if with_length { headers.push(("Content-Length".to_string(), Bytes(((delta as usize - 49152) * 40).to_string().into_bytes()))); }
+            ServerCase { req: ReqCase { base: Base { method: method.to_string(), target: target.to_string(), version: "HTTP/1.1".to_string(), headers, body: Bytes(vec![]) }, muts: vec![Mut::Oversize(delta)] }, buf: 0, app: AppKind::Real, legacy: false, binary: true }
+        })
 }
 
 /// Replay every file under /verif/corpus/<name>/ (worker-sharded).
